@@ -160,7 +160,7 @@ Theorem C12_nav_raises_iff_small : forall fuel n L D mh,
   (navigation_wu_x fuel n L D mh = NavRaises <-> (n <= 1)%nat) /\
   (forall sr rs, navigation_wu_x fuel n L D mh = NavDone sr rs <->
                  ((2 <= n)%nat /\ navigation_wu fuel n L D mh = Some (sr, rs))).
-Proof. intros. split; [apply navigation_wu_x_raises|intros; apply navigation_wu_x_done]. Qed.
+Proof. exact navigation_wu_x_outcomes. Qed.
 
 (* non-vacuity: tie-heavy directed lengths; 0->3 has two shortest alternatives, node 4 unreachable *)
 Example C12_nonvacuous :
